@@ -625,6 +625,70 @@ func nonTrivial(hs []hdr, c Case) (bool, []string) {
 	return nt, cls
 }
 
+// flushClasses models, on header names only, when the extractor applies the metadata it has
+// deferred for directory entries (tar/extractor.go deferUpdate: the most recent deferral is
+// applied early when a directory entry with a shorter path below the same parent prefix
+// arrives; everything else at the end of the archive) and reports which of these two paths
+// met a directory that a later symlink / file entry of the same name had replaced. Only
+// meaningful when every entry was extracted (Extract returned nil). Coverage label only.
+func flushClasses(hs []hdr) []string {
+	if len(hs) == 0 || hs[0].Type != tar.TypeDir {
+		return nil
+	}
+	type def struct {
+		name     string
+		replaced string
+	}
+	var stack []def
+	seen := map[string]bool{}
+	for _, h := range hs {
+		name := strings.TrimSuffix(h.Name, "/")
+		switch h.Type {
+		case tar.TypeSymlink, tar.TypeReg:
+			for i := range stack {
+				if stack[i].name == name {
+					stack[i].replaced = "symlink"
+					if h.Type == tar.TypeReg {
+						stack[i].replaced = "file"
+					}
+				}
+			}
+		case tar.TypeDir:
+			for i := range stack {
+				if stack[i].name == name {
+					stack[i].replaced = ""
+				}
+			}
+			if h.Mode == 0 && h.ModTime.IsZero() {
+				continue
+			}
+			parent := name
+			if i := strings.LastIndexByte(name, '/'); i >= 0 {
+				parent = name[:i]
+			}
+			if n := len(stack); n > 0 && len(name) < len(stack[n-1].name) && strings.HasPrefix(stack[n-1].name, parent) {
+				seen["flush:early"] = true
+				if r := stack[n-1].replaced; r != "" {
+					seen["flush:early-of-dir-replaced-by-"+r] = true
+				}
+				stack = stack[:n-1]
+			}
+			stack = append(stack, def{name: name})
+		}
+	}
+	for _, d := range stack {
+		if d.replaced != "" {
+			seen["flush:final-of-dir-replaced-by-"+d.replaced] = true
+		}
+	}
+	var out []string
+	for k := range seen {
+		out = append(out, k)
+	}
+	sort.Strings(out)
+	return out
+}
+
 // extractAndCheck runs the extractor on raw archive bytes inside sb and applies the oracle.
 func extractAndCheck(sb *sandbox, c Case, tarBytes []byte) kit.Result {
 	hs := parseHeaders(tarBytes)
@@ -639,6 +703,9 @@ func extractAndCheck(sb *sandbox, c Case, tarBytes []byte) kit.Result {
 
 	nt, cls := nonTrivial(hs, c)
 	cls = append(cls, errClass(err), "target:"+c.Target)
+	if err == nil {
+		cls = append(cls, flushClasses(hs)...)
+	}
 	if len(ds) > 0 {
 		known := true
 		var msgs []string
@@ -768,6 +835,121 @@ func genData(t *rapid.T) []byte {
 	return kit.FillBytes(t, rapid.IntRange(0, 40).Draw(t, "n"))
 }
 
+// genMeta draws metadata for a directory entry that should take part in the deferred
+// metadata handling: mostly a non-zero mode and/or a time, sometimes neither.
+func genMeta(t *rapid.T, e *Entry) {
+	switch rapid.IntRange(0, 7).Draw(t, "metaclass") {
+	case 0, 1, 2, 3:
+		e.Mode = rapid.SampledFrom([]int64{0o700, 0o755, 0o777, 0o500, 0o711, 0o1777, 0o2750, 0o4755, 0o7777, 0o1}).Draw(t, "dmode")
+		genTime(t, e)
+	case 4:
+		e.Mode = 0
+		e.HasTime = true
+		e.Sec = rapid.SampledFrom([]int64{1, 1000000000, 1700000000, 4102444800}).Draw(t, "dsec")
+	default:
+		e.Mode = genMode(t)
+		genTime(t, e)
+	}
+}
+
+// genDeferBlock draws the entry sequence that exercises the extractor's deferred directory
+// metadata (DESIGN C38 mechanism "deferred directory metadata"): a directory entry X with
+// metadata, optionally something in between, an entry of another type re-using the name X
+// (it replaces X while X is empty), and then one to three further entries - mostly
+// directories with metadata - at names around X: shorter and longer siblings, the level
+// above, X itself, below X. The extractor applies X's pending metadata either early (a
+// directory entry with a shorter path below the same parent prefix arrives) or at the end
+// of the archive; the names come in different lengths and depths so that both happen.
+// Returns the entries and the names of created directories / symlinks for the model.
+func genDeferBlock(t *rapid.T, rootName string, parents []string) (es []Entry, made []string) {
+	parent := rootName
+	if rapid.IntRange(0, 2).Draw(t, "blk-parentclass") == 2 {
+		parent = parents[len(parents)-1-rapid.IntRange(0, len(parents)-1).Draw(t, "blk-parent")]
+	}
+	level := parent // the directory whose children the followers are
+	if strings.Count(parent, "/") < 3 && rapid.IntRange(0, 2).Draw(t, "blk-deep") == 0 {
+		// X one level further down, below a directory created right here
+		mid := Entry{Name: parent + "/" + rapid.SampledFrom([]string{"d", "e", "dd"}).Draw(t, "blk-mid"), Type: "dir"}
+		genMeta(t, &mid)
+		es = append(es, mid)
+		made = append(made, mid.Name)
+		parent = mid.Name
+	}
+	x := Entry{Name: parent + "/" + rapid.SampledFrom([]string{"dd", "eee", "llll", "d", "e", "l", "dd", "eee"}).Draw(t, "blk-x"), Type: "dir"}
+	genMeta(t, &x)
+	es = append(es, x)
+	made = append(made, x.Name)
+
+	switch rapid.IntRange(0, 9).Draw(t, "blk-between") {
+	case 0: // X is not empty any more: the replacement has to fail
+		es = append(es, Entry{Name: x.Name + "/f", Type: "file", Mode: 0o644, Data: []byte("in-x")})
+	case 1: // unrelated file next to X
+		es = append(es, Entry{Name: parent + "/f", Type: "file", Mode: genMode(t), Data: []byte("next-to-x")})
+	case 2: // a directory without metadata (nothing deferred) next to X
+		es = append(es, Entry{Name: parent + "/e", Type: "dir"})
+		made = append(made, parent+"/e")
+	}
+
+	r := Entry{Name: x.Name, Type: rapid.SampledFrom([]string{"symlink", "symlink", "symlink", "symlink", "file", "dir", "symlink", "hardlink"}).Draw(t, "blk-rtype")}
+	r.Mode = genMode(t)
+	genTime(t, &r)
+	switch r.Type {
+	case "symlink", "hardlink":
+		if rapid.IntRange(0, 3).Draw(t, "blk-linkclass") == 0 {
+			r.Link = genLink(t, r.Name)
+		} else {
+			// an existing object outside the target, so that following the link has an effect
+			up := strings.Repeat("../", strings.Count(r.Name, "/"))
+			o := rapid.SampledFrom([]string{"outside/dir", "outside/d", "outside", "outside/victim", "outside/dir/d", "outside/dirlink", "outside/link", "outside/dir/f", "d", "f"}).Draw(t, "blk-out")
+			if strings.Count(r.Name, "/") <= 3 && rapid.Bool().Draw(t, "blk-rel") {
+				r.Link = up + o
+			} else {
+				r.Link = "/" + o
+			}
+		}
+	case "file":
+		r.Data = genData(t)
+	}
+	es = append(es, r)
+
+	nf := rapid.IntRange(1, 3).Draw(t, "blk-nfollow")
+	for i := 0; i < nf; i++ {
+		f := Entry{Type: rapid.SampledFrom([]string{"dir", "dir", "dir", "dir", "dir", "file", "symlink"}).Draw(t, "blk-ftype")}
+		switch rapid.IntRange(0, 9).Draw(t, "blk-fname") {
+		case 0, 1, 2: // sibling of X, shorter or longer than X's name
+			f.Name = parent + "/" + rapid.SampledFrom([]string{"e", "f", "d", "ee", "ffffff"}).Draw(t, "blk-sib")
+		case 3, 4: // child of the level the block started at
+			f.Name = level + "/" + rapid.SampledFrom([]string{"e", "f", "l", "ee", "ffffff"}).Draw(t, "blk-lsib")
+		case 5: // the directory containing X, again
+			f.Name = parent
+		case 6: // X again
+			f.Name = x.Name
+		case 7: // below X
+			f.Name = x.Name + "/" + rapid.SampledFrom(comps).Draw(t, "blk-child")
+		case 8: // directly below the root
+			f.Name = rootName + "/" + rapid.SampledFrom([]string{"e", "f", "l", "ee"}).Draw(t, "blk-top")
+		default:
+			f.Name = rootName + "/" + genPath(t)
+		}
+		switch f.Type {
+		case "dir":
+			genMeta(t, &f)
+			made = append(made, f.Name)
+		case "file":
+			f.Mode = genMode(t)
+			genTime(t, &f)
+			f.Data = genData(t)
+		default:
+			f.Mode = genMode(t)
+			genTime(t, &f)
+			f.Link = genLink(t, f.Name)
+			made = append(made, f.Name)
+		}
+		es = append(es, f)
+	}
+	return es, made
+}
+
 func gen(t *rapid.T) Case {
 	c := Case{}
 	// NB rapid favours early alternatives, so the interesting ones come first everywhere
@@ -832,7 +1014,32 @@ func gen(t *rapid.T) Case {
 		}
 	}
 	n := rapid.IntRange(0, 9).Draw(t, "nentries")
+	// about every fourth archive contains a deferred-metadata block (genDeferBlock) in place
+	// of some of its free entries; early positions preferred because one refused entry ends
+	// the extraction
+	blockAt := -1
+	if rapid.IntRange(0, 3).Draw(t, "block") == 0 {
+		if n > 3 {
+			n = 3
+		}
+		blockAt = rapid.SampledFrom([]int{0, 0, 0, 1, 2, 3}).Draw(t, "blockat")
+		if blockAt > n {
+			blockAt = n
+		}
+	}
+	addBlock := func() {
+		es, made := genDeferBlock(t, rootName, parents)
+		c.Entries = append(c.Entries, es...)
+		for _, m := range made {
+			if strings.Count(m, "/") < 4 {
+				parents = append(parents, m)
+			}
+		}
+	}
 	for i := 0; i < n; i++ {
+		if i == blockAt {
+			addBlock()
+		}
 		e := Entry{}
 		switch rapid.IntRange(0, 15).Draw(t, "nameclass") {
 		case 15:
@@ -865,12 +1072,15 @@ func gen(t *rapid.T) Case {
 		}
 		c.Entries = append(c.Entries, e)
 	}
+	if blockAt >= n {
+		addBlock()
+	}
 	return c
 }
 
 var spec = kit.Spec[Case]{
 	Prop: "C38", Name: "main",
-	Rule: "sandbox T/{outside/..,target}; archive of 1..10 entries (dir/file/symlink/other; names from a 4-component pool so that names collide, plus hostile names with '..', absolute, empty, NUL, '//'; symlink targets absolute-into-T/outside or relative ../outside/..; modes incl. 0..07777 and type bits; mtimes unset/odd) extracted into a fresh / pre-populated (incl. symlinks to outside) / symlink / file target; lstat+content+ctime snapshot of everything under the sandbox except the target must be unchanged whether or not Extract fails. non-trivial = valid root and (a symlink entry followed by an entry through or at its name, or a directory with metadata later replaced by a symlink, or an entry through or at a pre-existing symlink, or the target path itself is a symlink)",
+	Rule: "sandbox T/{outside/..,target}; archive of 1..11 entries (dir/file/symlink/other; names from a 4-component pool so that names collide, plus hostile names with '..', absolute, empty, NUL, '//'; every fourth archive contains a deferred-metadata block: directory X with mode/mtime, an entry of another type re-using the name X, then 1..3 entries - mostly directories with metadata - at shorter/longer sibling names, the level above, X itself or below X, so that X's pending metadata is applied early as well as at the end; symlink targets absolute-into-T/outside or relative ../outside/..; modes incl. 0..07777 and type bits; mtimes unset/odd) extracted into a fresh / pre-populated (incl. symlinks to outside) / symlink / file target; lstat+content+ctime snapshot of everything under the sandbox except the target must be unchanged whether or not Extract fails. non-trivial = valid root and (a symlink entry followed by an entry through or at its name, or a directory with metadata later replaced by a symlink, or an entry through or at a pre-existing symlink, or the target path itself is a symlink)",
 	Quick: 1500, Thorough: 3200,
 	Gen: gen, Run: run,
 	Sample: func(c Case) any {
